@@ -674,6 +674,11 @@ func (r *FileRestorer) applyDecorations(node ast.Node, name string, decorations 
 	_, isNodeFile := node.(*ast.File)
 	isPackageComment := isNodeFile && name == "Start"
 
+	// comments that follow each other without an empty line between them form one comment group,
+	// as they do in a parsed file
+	var group *ast.CommentGroup
+	var breaksSinceComment int
+
 	for _, d := range decorations {
 
 		isNewline := d == "\n"
@@ -702,9 +707,13 @@ func (r *FileRestorer) applyDecorations(node ast.Node, name string, decorations 
 				// for comments on the same line as the end of a node that has a Comment field, we
 				// add the comment to the node instead of the file.
 				r.addCommentField(node, r.cursor, d)
+			} else if group != nil && breaksSinceComment <= 1 {
+				group.List = append(group.List, &ast.Comment{Slash: r.cursor, Text: d})
 			} else {
-				r.comments = append(r.comments, &ast.CommentGroup{List: []*ast.Comment{{Slash: r.cursor, Text: d}}})
+				group = &ast.CommentGroup{List: []*ast.Comment{{Slash: r.cursor, Text: d}}}
+				r.comments = append(r.comments, group)
 			}
+			breaksSinceComment = 0
 			r.cursor += token.Pos(len(d))
 		}
 
@@ -726,6 +735,7 @@ func (r *FileRestorer) applyDecorations(node ast.Node, name string, decorations 
 
 		if isNewline || isLineComment {
 			firstLine = false
+			breaksSinceComment++
 		}
 	}
 	if isPackageComment {
